@@ -300,11 +300,19 @@ def build():
     p.models["weakref.ref"] = lambda i, a, k: Opaque("weakref", None)
     def iterable_iter(i, r, a, k):
         if i.ctx.choose(2, "input-is-iterable") == 1:
+            i.ctx.ghost["NOT_ITERABLE"] = True
             i.raise_("TypeError")  # iter(5): the argument of the call is not iterable
         return Opaque("taskiter", None, of=r)
 
     p.models["iterable.__iter__"] = iterable_iter
-    p.models["len:iterable"] = lambda i, v: INT.fresh(i.ctx, "ntasks")
+    def iterable_len(i, v):
+        # an object may have __len__ and still not know its length: tqdm(generator).__len__ raises TypeError - the sequential loop over
+        # it works all the same
+        if i.ctx.choose(2, "len-of-the-input-raises") == 1:
+            i.raise_("TypeError")
+        return INT.fresh(i.ctx, "ntasks")
+
+    p.models["len:iterable"] = iterable_len
     def m_islice(interp, args, kwargs):
         if interp.ctx.branch(ops.as_int_term(args[1]) < 0, "islice:negative-stop"):
             interp.raise_("ValueError")  # CPython: "Stop argument for islice() must be None or an integer: 0 <= x <= sys.maxsize"
@@ -321,6 +329,7 @@ def build():
 
     p.models["Str.replace"] = lambda i, r, a, k: STR.fresh(i.ctx, "expr")
     cglob = {"eval_expr": lambda interp: _Fn(eval_expr), "LokyBackend": ClassRef("LokyBackend")}
+    p.spec_funcs["not_iterable"] = lambda interp: bool(interp.ctx.ghost.get("NOT_ITERABLE"))
     p.spec_funcs["bad_expr"] = lambda interp: bool(interp.ctx.ghost.get("BAD_EXPR"))
     p.spec_funcs["of"] = lambda interp, o: o.attrs.get("of")
     p.spec_funcs["limited_to"] = lambda interp, o: o.attrs.get("n")
@@ -353,7 +362,8 @@ def build():
                                   "what_the_call_started_is_released": LEFTOVER},
                  "ValueError": {"invalid_pre_dispatch_expression": "NJOBS != 1 and self.pre_dispatch != 'all' and bad_expr()", "object_stays_usable": "self._running is False",
                                 "what_the_call_started_is_released": LEFTOVER},
-                 "TypeError": {"object_stays_usable": "self._running is False", "what_the_call_started_is_released": LEFTOVER}},
+                 "TypeError": {"object_stays_usable": "self._running is False", "what_the_call_started_is_released": LEFTOVER,
+                               "only_for_an_input_that_cannot_be_iterated": "not_iterable()"}},
     ))
     # ------------------------------------------------------------------ _get_sequential_output (n_jobs == 1: calling thread, in order, once each)
     def seq_tasks(interp):
@@ -483,7 +493,8 @@ def build():
             for k in ("_aborting", "_exception", "_aborted"):
                 o.fields[k] = BOOL.fresh(ctx, k)
             g = lambda k: ops.as_int_term(o.fields[k])
-            ctx.assume(z3.And(g("verbose") >= 0, g("n_completed_tasks") >= 0, g("n_dispatched_tasks") >= g("n_completed_tasks"), g("n_dispatched_batches") >= 0))
+            # (verbose: any integer - "if non zero, progress messages are printed"; a negative level is accepted by Parallel)
+            ctx.assume(z3.And(g("n_completed_tasks") >= 0, g("n_dispatched_tasks") >= g("n_completed_tasks"), g("n_dispatched_batches") >= 0))
             if o.fields["n_tasks"] is not None:
                 ctx.assume(ops.as_int_term(o.fields["n_tasks"]) >= 0)
             o.fields["__complete__"] = True   # nothing else has been assigned: reading another attribute is an AttributeError
